@@ -34,6 +34,8 @@ class KademliaDatagramBase:
         self.packet_type = packet_type
         if self.expected_packet_type != packet_type:
             raise ValueError(f"invalid packet type: {packet_type}, expected {self.expected_packet_type}")
+        if not isinstance(rpc_id, bytes) or not isinstance(node_id, bytes):
+            raise ValueError("invalid rpc_id or node_id: not a byte string")
         if len(rpc_id) != constants.RPC_ID_LENGTH:
             raise ValueError(f"invalid rpc node_id: {len(rpc_id)} bytes (expected 20)")
         if not len(node_id) == constants.HASH_LENGTH:
@@ -66,6 +68,10 @@ class RequestDatagram(KademliaDatagramBase):
     def __init__(self, packet_type: int, rpc_id: bytes, node_id: bytes, method: bytes,
                  args: typing.Optional[typing.List] = None):
         super().__init__(packet_type, rpc_id, node_id)
+        if not isinstance(method, bytes):
+            raise ValueError("invalid method: not a byte string")
+        if args is not None and not isinstance(args, list):
+            raise ValueError("invalid args: not a list")
         self.method = method
         self.args = args or []
         if not self.args:
@@ -140,6 +146,8 @@ class ErrorDatagram(KademliaDatagramBase):
 
     def __init__(self, packet_type: int, rpc_id: bytes, node_id: bytes, exception_type: bytes, response: bytes):
         super().__init__(packet_type, rpc_id, node_id)
+        if not isinstance(exception_type, bytes) or not isinstance(response, bytes):
+            raise ValueError("invalid exception type or message: not a byte string")
         self.exception_type = exception_type.decode()
         self.response = response.decode()
 
@@ -157,7 +165,7 @@ def _decode_datagram(datagram: bytes):
         str(k).encode() if not isinstance(k, bytes) else k: v for k, v in primitive.items()
     }
 
-    if converted[b'0'] in [REQUEST_TYPE, ERROR_TYPE, RESPONSE_TYPE]:  # pylint: disable=unsubscriptable-object
+    if converted.get(b'0') in [REQUEST_TYPE, ERROR_TYPE, RESPONSE_TYPE]:  # pylint: disable=no-member
         datagram_type = converted[b'0']  # pylint: disable=unsubscriptable-object
     else:
         raise ValueError("invalid datagram type")
